@@ -306,3 +306,84 @@ Section Loop.
         now rewrite <- app_assoc.
   Qed.
 End Loop.
+
+(* ================================================================== D. assembly *)
+Lemma Forall2_filter {A B} (R : A -> B -> Prop) f g l1 l2 :
+  (forall a b, R a b -> f a = g b) -> Forall2 R l1 l2 -> Forall2 R (filter f l1) (filter g l2).
+Proof.
+  intros H F. induction F as [|a b l1 l2 Hab F IH]; simpl; [constructor|].
+  rewrite <- (H a b Hab). destruct (f a); [constructor|]; assumption.
+Qed.
+
+Lemma kept_put C tbl g it : relI C tbl g it -> kept g = put_item C it.
+Proof.
+  destruct g as [e|f t], it as [r|a b]; simpl; try contradiction; [|reflexivity].
+  intros [_ Hk]. unfold Grouping.is_ignored. rewrite Hk. destruct (nkind_of C r); reflexivity.
+Qed.
+
+Lemma read_step P s w k r d its n nr out tbl0 nx raws r' k' :
+  s = {| p_world := w; p_k := k; p_r := r; p_buf := (d, mkrst [] [] false n its nr); p_tbl := tbl0; p_next := nx;
+         p_out := out; p_stopped := false |} ->
+  read_batch (pc_reader P) (w_fs w) (r, kdrained k, []) (k_queue k) = Done (r', k', raws) ->
+  pstep P s (ARead (length (k_queue k))) =
+  let '(nevs, tbl) := number (pc_reader P) nx raws in
+  Done ({| p_world := w; p_k := k'; p_r := r';
+           p_buf := reader_run (pc_delay P) (2 * length nevs + 2) (d, mkrst nevs [] false n its (nr ++ nevs));
+           p_tbl := tbl0 ++ tbl; p_next := nx + N.of_nat (length raws); p_out := out; p_stopped := false |},
+        ORaw (k_queue k)).
+Proof.
+  intros -> Hrd. unfold pstep. cbn [p_buf snd deleted_self mkrst p_k p_world p_r p_next p_tbl p_out p_stopped].
+  rewrite firstn_all, skipn_all. fold (kdrained k). rewrite Hrd.
+  destruct (number (pc_reader P) nx raws) as [nevs tbl]. reflexivity.
+Qed.
+
+Lemma prun_cons P s a h acc s' ob :
+  pstep P s a = Done (s', ob) -> prun P s (a :: h) acc = prun P s' h (acc ++ [ob]).
+Proof. intros H. cbn [prun]. now rewrite H. Qed.
+
+Theorem pipeline_tie_holds : pipeline_tie.
+Proof.
+  intros P s o evs HF Hidle Hstop Hkq Hfresh Hdel.
+  unfold deliver_one in Hdel.
+  destruct (apply_op (p_world s) o) as [w'|] eqn:Happ; [|discriminate].
+  set (k1 := kernel_op (p_k s) (w_fs (p_world s)) o) in *.
+  destruct (read_batch (pc_reader P) (w_fs w') (p_r s, kdrained k1, []) (k_queue k1)) as [[[r' k'] raws]|] eqn:Hrd;
+    [|discriminate].
+  inversion Hdel; subst evs; clear Hdel.
+  destruct s as [w k r [d rs] tbl0 nx out stopped]. cbn [p_world p_k p_r p_buf p_tbl p_next p_out p_stopped] in *.
+  subst stopped. destruct Hidle as [Hq [Hcl [Hpc [Hb [Hg [Hds Hfr]]]]]]. cbn [fst snd] in *.
+  destruct rs as [b0 g0 ds0 n0 its0 nr0]. cbn [batch grouped deleted_self items next_el] in *. subst b0 g0 ds0.
+  destruct (number (pc_reader P) nx raws) as [nevs tbl] eqn:Hnum.
+  destruct (number_spec _ _ _ _ _ Hnum) as [Hn1 [Hn2 [Hn3 Hn4]]].
+  assert (HI : QInv d its0 n0 []).
+  { constructor; [rewrite Hq; constructor | rewrite Hq; intros en [] | exact Hpc | exact Hcl | exact Hfr]. }
+  destruct (reader_run_spec (pc_delay P) nevs d false n0 its0 (nr0 ++ nevs) Hq HI)
+    as [d' [ds' [n' [its' [Hrun [HI' Hclk]]]]]].
+  set (K := filter kept (ggo nevs [])) in *.
+  exists (length K). unfold tie_history. cbn [p_k p_world]. fold k1.
+  match goal with |- context [prun P ?s0 (AOp o :: _) _] =>
+    assert (Hop : pstep P s0 (AOp o) =
+                  Done ({| p_world := w'; p_k := k1; p_r := r; p_buf := (d, mkrst [] [] false n0 its0 nr0);
+                           p_tbl := tbl0; p_next := nx; p_out := out; p_stopped := false |}, ONone))
+      by (cbn [pstep p_world]; rewrite Happ; reflexivity);
+    rewrite (prun_cons P _ _ _ _ _ _ Hop) end.
+  erewrite prun_cons; [|rewrite (read_step P _ w' k1 r d its0 n0 nr0 out tbl0 nx raws r' k' eq_refl Hrd);
+                         rewrite Hnum, Hrun; reflexivity].
+  set (d2 := {| q := q d'; closed := closed d'; cl := cl d'; clock := clock d' + pc_delay P; pc := pc d';
+               puts := puts d'; got := got d'; ends := ends d'; removed := removed d' |}).
+  erewrite prun_cons with (s' := {| p_world := w'; p_k := k'; p_r := r';
+                                    p_buf := (d2, mkrst [] [] ds' n' its' (nr0 ++ nevs));
+                                    p_tbl := tbl0 ++ tbl; p_next := nx + N.of_nat (length raws); p_out := out;
+                                    p_stopped := false |}); [|reflexivity].
+  destruct HI' as [H1 H2 H3 H4 H5].
+  match goal with |- context [prun P ?s3 (repeat AEmit _) ?acc] =>
+    destruct (emit_loop P HF K (group_batch (pc_reader P) raws) s3 d2 (mkrst [] [] ds' n' its' (nr0 ++ nevs)) acc)
+      as [s' [obs [Hrun' Hout]]] end; try reflexivity.
+  - exact H3.
+  - exact H4.
+  - exact H1.
+  - intros en Hin. cbn [d2 q clock] in *. apply H2 in Hin. lia.
+  - cbn [p_tbl]. unfold K, group_batch. apply Forall2_filter; [apply kept_put|].
+    apply ggo_rel; [|constructor]. apply Hn4. exact Hfresh.
+  - exists s', obs. split; [exact Hrun'|]. rewrite Hout. reflexivity.
+Qed.
